@@ -460,4 +460,100 @@ theorem splitListLoop_tiles (max : Nat) : ∀ (sizes : List Nat) (idx1 : Nat), i
     rw [hnxt]
     exact ih
 
+
+/-! ### permutations of `range n` (pigeonhole, sorting) -/
+
+theorem nodup_lt_length_le : ∀ (n : Nat) (l : List Nat), l.Nodup → (∀ x ∈ l, x < n) → l.length ≤ n
+  | 0, l, _, h => by
+    cases l with
+    | nil => simp
+    | cons a _ => exact absurd (h a (by simp)) (by omega)
+  | n + 1, l, hnd, h => by
+    have ih := nodup_lt_length_le n (l.erase n) (hnd.erase n) (by
+      intro x hx
+      have := (hnd.mem_erase_iff).1 hx
+      have := h x this.2
+      omega)
+    by_cases hm : n ∈ l
+    · rw [List.length_erase_of_mem hm] at ih; omega
+    · rw [List.erase_of_not_mem hm] at ih; omega
+
+theorem perm_range_of_nodup_lt : ∀ (n : Nat) (l : List Nat), l.Nodup → (∀ x ∈ l, x < n) → l.length = n →
+    l.Perm (List.range n)
+  | 0, l, _, _, hl => by
+    have : l = [] := List.length_eq_zero_iff.1 hl
+    subst this; simp
+  | n + 1, l, hnd, h, hl => by
+    have hm : n ∈ l := by
+      by_cases hm : n ∈ l
+      · exact hm
+      · have := nodup_lt_length_le n l hnd (by
+          intro x hx
+          have := h x hx
+          have : x ≠ n := fun e => hm (e ▸ hx)
+          omega)
+        omega
+    have ih := perm_range_of_nodup_lt n (l.erase n) (hnd.erase n) (by
+      intro x hx
+      have := (hnd.mem_erase_iff).1 hx
+      have := h x this.2
+      omega) (by rw [List.length_erase_of_mem hm]; omega)
+    rw [List.range_succ]
+    exact (List.perm_cons_erase hm).trans ((List.Perm.cons n ih).trans (List.perm_append_singleton n _).symm)
+
+theorem mergeSort_of_perm_range (p : List Nat) (n : Nat) (hp : p.Perm (List.range n)) :
+    p.mergeSort = List.range n := by
+  apply List.Perm.eq_of_pairwise (le := fun a b => decide (a ≤ b))
+  · intro a b _ _ h1 h2
+    simp at h1 h2; omega
+  · apply List.pairwise_mergeSort
+    · intro a b c h1 h2; simp at *; omega
+    · intro a b; simp; omega
+  · have := List.pairwise_le_range (n := n)
+    exact this.imp (by intro a b h; simpa using h)
+  · exact (List.mergeSort_perm p _).trans hp
+
+theorem perm_range_of_mergeSort (p : List Nat) (h : p.mergeSort = List.range p.length) : p.Perm (List.range p.length) := by
+  have := List.mergeSort_perm p (fun a b => decide (a ≤ b))
+  rw [h] at this; exact this.symm
+
+
+theorem range_map_getD' (l : List Nat) : (List.range l.length).map (fun i => l.getD i 0) = l := by
+  apply List.ext_getElem?; intro k
+  simp [List.getElem?_map, List.getD_eq_getElem?_getD]
+  by_cases hk : k < l.length
+  · simp [hk]
+  · simp [hk]
+
+/-- `permute` on an explicit permutation `p` of the batch dims (non-negative spelling) -/
+theorem permuteMeta_of_perm (p : List Nat) (bs : Shape) (nm : Names) (hp : p.Perm (List.range bs.length)) :
+    resShape bs (permuteMeta (natsToInts p) bs nm) = some (p.map (fun i => bs.getD i 0)) := by
+  have hlen : p.length = bs.length := by simpa using hp.length_eq
+  have hlt : ∀ x ∈ p, x < bs.length := fun x hx => by simpa using (hp.mem_iff.1 hx)
+  unfold permuteMeta
+  have h1 : (natsToInts p).map (fun d => if d ≥ 0 then d else (bs.length : Int) + d) = natsToInts p := by
+    simp [natsToInts, List.map_map, Function.comp_def]
+  simp only [h1]
+  have h2 : (natsToInts p).any (fun d => d < 0 ∨ d ≥ (bs.length : Int)) = false := by
+    simp only [natsToInts, List.any_eq_false, List.mem_map]
+    rintro d ⟨x, hx, rfl⟩
+    have := hlt x hx
+    simp; omega
+  have h3 : (natsToInts p).length = bs.length := by simp [natsToInts, hlen]
+  have h4 : (natsToInts p).map Int.toNat = p := by simp [natsToInts, List.map_map, Function.comp_def]
+  have h5 : p.mergeSort = List.range p.length := by rw [hlen]; exact mergeSort_of_perm_range p _ hp
+  simp only [h2, h3, h4, h5, Bool.false_eq_true, if_false, ne_eq, not_true_eq_false]
+  by_cases hn : p.length = 0 ∧ bs.length = 0
+  · simp only [hn, and_self, if_true, resShape]
+    have hb : bs = [] := List.length_eq_zero_iff.1 hn.2
+    have hpn : p = [] := List.length_eq_zero_iff.1 hn.1
+    subst hb; subst hpn; rfl
+  · simp only [hn, if_false]
+    by_cases hid : p = List.range p.length
+    · simp only [hid.symm, if_true, resShape]
+      rw [hid, hlen, range_map_getD']
+    · simp only [hid, if_false, resShape]
+      rw [hlen, List.drop_length, List.append_nil]
+
+
 end TdVerif.C02
